@@ -720,7 +720,9 @@ theorem restart_equivalence_reachable_multi {y0 y yN : Sys} (h0 : StartM y0) (pr
     `|recs|` re-issues, `.initDone`, the same `rest`; the ends agree up to who runs what and up to the position of the
     scheduler stream (`setMD`), from which nothing is drawn any more — `treat_output` neither reads nor writes it
     (`treatOutput_setMD`); the model's `restore` keeps that position at 0 until the first fresh pick, the code's
-    `set_rgen` restores it at once.  With 11 this covers every split point 0 < k < N. -/
+    `set_rgen` restores it at once.  With 11 this covers every split point 0 < k < N.
+    (Audit 2026-09-30: the exact statement, for the restart as the code performs it — `restoreNow` — is 23; chains with
+    final-phase stops are 24.) -/
 theorem restart_equivalence_multi_final_phase {occ : List (List Int)} {recs : List ((List Nat × List Nat) × Nat)}
     {y : Sys} {s' : St} (k : Nat) (st : Status) (w : List (List Rat)) (o : PickOutcome) (rest : List Ev)
     (r : St × Job × List Job) (hT : stepTreat y k st w = .ok r) (hR : RestoreRelM occ recs r.1 s')
@@ -769,7 +771,9 @@ theorem restart_equivalence_reachable_multi_final_phase {y0 y yN : Sys} (h0 : St
     identities) position by position; and appended the same rows since the last restart.
     The induction keeps the uninterrupted run on the left: `StopStateM`/`StopM` are proved for its states (17) and
     transfer along `RM` to the states of the restarted runs (`StopStateM.transfer`, `StopM.transfer`), where
-    `restore_persist_obs_eq_multi` (13) then applies. -/
+    `restore_persist_obs_eq_multi` (13) then applies.
+    (Audit 2026-09-30: `ChainM` admits only stops at which a fresh job is due; `restart_chain_from_disk` (24) admits every
+    stop 0 < k < N and rebuilds with `restoreNow`.) -/
 theorem restart_chain_equivalence_multi_unconditional {y0 y yN yN' : Sys} (h0 : StartM y0) (pre evs : List Ev)
     (hh : HistOk y0 (pre ++ evs)) (hy : run y0 pre = .ok y) (hti : y.s.toinitiate = -1) (hs : StepsOnly evs)
     (hrun : run y evs = .ok yN) (hc : ChainM y evs yN') :
